@@ -32,6 +32,24 @@ pub(crate) fn ty(p: &mut Parser) {
     }
 }
 
+/// Entry point for parsing a standalone type: the syntax tree always needs a root node,
+/// even when no type could be parsed.
+pub(crate) fn standalone_ty(p: &mut Parser) {
+    // Leading ignored tokens have no parent node to be attached to.
+    p.skip_ignored();
+    p.pending.clear();
+    match parse(p) {
+        Ok(_) => (),
+        Err(token) => {
+            let _guard = p.start_root_node(SyntaxKind::NAMED_TYPE);
+            match token {
+                Some(token) => p.err_at_token(&token, "expected a type"),
+                None => p.err("expected a type"),
+            }
+        }
+    }
+}
+
 /// Returns the type on success, or the TokenKind that caused an error.
 ///
 /// When errors occur deeper inside nested types like lists, this function
